@@ -24,12 +24,16 @@
 (* What the property leaves open is a *parameter* of the action (amount of    *)
 (* padding, alignment given to an output section): any legal value keeps all  *)
 (* invariants; ppci's choice is Design*.                                      *)
-EXTENDS Integers, Sequences, FiniteSets
+EXTENDS Integers, Sequences, FiniteSets, LinkerJobs
 
-CONSTANT Jobs    \* the link jobs under consideration: Seq([inp, lay, opt])
-                 \*   inp  Seq of input objects [secs, syms, rels, entry]
-                 \*   lay  [on, entry, mems: Seq([name, loc, size, ins: Seq([k, name, al])])]
-                 \*   opt  [partial, entry, extra: Seq([name, value])]
+(* LinkerJobs defines Jobs, the link jobs under consideration: Seq([inp, lay, opt])
+     inp  Seq of input objects [secs, syms, rels, entry]
+     lay  [on, entry, mems: Seq([name, loc, size, ins: Seq([k, name, al])])]
+     opt  [partial, entry, extra: Seq([name, value])]
+   (a plain definition rather than a CONSTANT: TLC evaluates a constant-level definition once,
+   but re-evaluates the right-hand side of a cfg substitution `Jobs <- X` on every use).
+   tla/LinkerJobs.tla is the trace variant (jobs read from TRACE_FILE); for model checking the
+   engine supplies a LinkerJobs module that takes the jobs from LinkerJobs_MC.               *)
 VARIABLES
     job,     \* index of the job being linked (the job itself never changes)
     ph,      \* "start" | "inject" | "layout" | "check" | "relax" | "relocate" | "done" | "failed"
@@ -44,8 +48,8 @@ inp == Jobs[job].inp
 lay == Jobs[job].lay
 opt == Jobs[job].opt
 
-Mk(f) == f \o <<>>                       \* force a concrete tuple (TLC evaluates [x \in S |-> e] lazily)
-Max(a, b) == IF a >= b THEN a ELSE b
+MkT(f) == f \o <<>>                       \* force a concrete tuple (TLC evaluates [x \in S |-> e] lazily)
+MaxOf(a, b) == IF a >= b THEN a ELSE b
 
 -----------------------------------------------------------------------------
 (* address arithmetic (kept in small operators: the relaxation action of C13 *)
@@ -53,7 +57,7 @@ Max(a, b) == IF a >= b THEN a ELSE b
 AlignUp(a, al)        == ((a + al - 1) \div al) * al
 DesignPad(len, al)    == AlignUp(len, al) - len            \* inject_object: `while size % alignment != 0`
 LegalPad(len, al, p)  == p >= 0 /\ (len + p) % al = 0
-DesignAlign(old, inal) == Max(old, inal)                   \* `if input.alignment > output.alignment`
+DesignAlign(old, inal) == MaxOf(old, inal)                   \* `if input.alignment > output.alignment`
 LegalAlign(old, inal, new) == new >= 1 /\ new % inal = 0 /\ (old = 0 \/ new % old = 0)
 DefaultAlign == 4                                          \* objectfile.Section.__init__
 
@@ -64,8 +68,8 @@ Tag(o, s, k) == <<o, s, k>>
 Patched(r) == <<-1, r, 0>>
 IsInputTag(t) == t[1] > 0
 IsPatched(t)  == t[1] = -1
-Tags(o, s, n) == Mk([k \in 1..n |-> <<o, s, k - 1>>])
-Pads(n)       == Mk([k \in 1..n |-> Pad])
+Tags(o, s, n) == MkT([k \in 1..n |-> <<o, s, k - 1>>])
+Pads(n)       == MkT([k \in 1..n |-> Pad])
 
 -----------------------------------------------------------------------------
 (* look-ups *)
@@ -91,7 +95,7 @@ EntryName == IF opt.entry # "" THEN opt.entry ELSE IF lay.on THEN lay.entry ELSE
 
 -----------------------------------------------------------------------------
 (* Start: Linker.link up to merge_objects *)
-ExtraSyms(first) == Mk([k \in 1..Len(opt.extra) |->
+ExtraSyms(first) == MkT([k \in 1..Len(opt.extra) |->
     NewSymbol(first + k - 1, opt.extra[k].name, "global", TRUE, opt.extra[k].value, "", "object", 0, <<-2, k>>)])
 StartDst ==
     LET e == EntryName
@@ -126,10 +130,10 @@ InjSecs(secs, o, k, pads, aligns, offs, pl) ==
             ELSE [ok |-> FALSE, secs |-> secs, offs |-> offs, placed |-> pl]
 
 \* ppci's own choice of the free parameters
-DesignPads(o)   == Mk([k \in 1..Len(inp[o].secs) |->
+DesignPads(o)   == MkT([k \in 1..Len(inp[o].secs) |->
     LET i == SecIdx(dst.secs, inp[o].secs[k].name) IN
     DesignPad(IF i = 0 THEN 0 ELSE Len(dst.secs[i].data), inp[o].secs[k].align)])
-DesignAligns(o) == Mk([k \in 1..Len(inp[o].secs) |->
+DesignAligns(o) == MkT([k \in 1..Len(inp[o].secs) |->
     LET i == SecIdx(dst.secs, inp[o].secs[k].name) IN
     DesignAlign(IF i = 0 THEN DefaultAlign ELSE dst.secs[i].align, inp[o].secs[k].align)])
 
@@ -190,10 +194,10 @@ DuplicateGlobal(o) ==
 -----------------------------------------------------------------------------
 (* inject_object, third loop + entry merge; then the next object / phase *)
 MappedId(o, id) == sub.map[SymIdx(inp[o].syms, id)]
-ShiftedRels(o) == Mk([k \in 1..Len(inp[o].rels) |->
+ShiftedRels(o) == MkT([k \in 1..Len(inp[o].rels) |->
     LET r == inp[o].rels[k] IN
     [type |-> r.type, sym |-> MappedId(o, r.sym), sec |-> r.sec,
-     off |-> sub.offs[SecIdx(inp[o].secs, r.sec)] + r.off, add |-> r.add, size |-> r.size]])
+     off |-> sub.offs[SecIdx(inp[o].secs, r.sec)] + r.off, add |-> r.add, size |-> r.size, ctl |-> r.ctl]])
 AfterInject == IF nxt < Len(inp) THEN "inject"
                ELSE IF opt.partial THEN "done"
                ELSE IF lay.on THEN "layout" ELSE "check"
@@ -282,7 +286,7 @@ AlignTo ==
 RECURSIVE ImgEnd(_, _, _, _)
 ImgEnd(secs, names, k, at) ==
     IF k > Len(names) THEN at
-    ELSE LET s == SecOf(secs, names[k]) IN ImgEnd(secs, names, k + 1, Max(at, s.addr) + Len(s.data))
+    ELSE LET s == SecOf(secs, names[k]) IN ImgEnd(secs, names, k + 1, MaxOf(at, s.addr) + Len(s.data))
 ImageSize(secs, img) == ImgEnd(secs, img.secs, 1, img.addr) - img.addr
 
 MemDone == ph = "layout" /\ cur.m <= Len(lay.mems) /\ cur.j = Len(Mem.ins) + 1
@@ -334,7 +338,7 @@ RelocInBounds(d, r) == LET e == d.rels[r] IN
 RelocateResult(r) ==
     LET e == dst.rels[r]
         i == SecIdx(dst.secs, e.sec) IN
-    [dst EXCEPT !.secs[i].data = Mk([p \in 1..Len(@) |-> IF p \in RelocSite(dst, r) THEN Patched(r) ELSE @[p]])]
+    [dst EXCEPT !.secs[i].data = MkT([p \in 1..Len(@) |-> IF p \in RelocSite(dst, r) THEN Patched(r) ELSE @[p]])]
 \* S, A, P of relocation r (addresses of the final layout)
 RelS(d, r) == SymAddr(d, d.rels[r].sym)
 RelA(d, r) == d.rels[r].add
